@@ -239,54 +239,66 @@ def _check_trace(ctx, t, label, ft, lim, strand, ob, rev, on, valid_spec, select
 
 
 def _r3_counts(ctx):
-    """Counts and distinct listings, judged on the statements their abstract evaluation executes."""
-    from ..absint import Opaque, Interp, Unsupported
-    it = interp_for(ctx)
+    """Counts and distinct listings, evaluated on a created model database: counts equal the number of stored rows per type,
+    featuretypes()/seqids() list each value once -- also after an abandoned iteration, an update and a delete."""
+    from . import scen
+    from ..absint import Unsupported
     f = require_func(ctx, "interface.FeatureDB.count_features_of_type")
-    p = [x for x in f.params if x != "self"][0]
-    n_filtered = 0
-    for label, ft in (("no featuretype", None), ("a featuretype", Sym("ft", "str", True))):
+    lines = scen.gff_lines() + [scen.feature("Z1", "exon", 5, 9, {"ID": ["z1"]}, seqid="chr2"), scen.feature("Z2", "CDS", 5, 9, {"ID": ["z2"]}, seqid="chrM")]
+    im, t = scen.run_create(ctx, "_GFFDBCreator", lines)
+    if not scen.returned(ctx, t, "create()", func=f, rule="R3"):
+        return
+    it, me, conn, t0 = scen.open_feature_db(ctx, im.db)
+    if not scen.returned(ctx, t0, "FeatureDB(dbfn)", func=f, rule="R3"):
+        return
+
+    def model():
+        rows = im.db.rows("features", ["featuretype", "seqid"])
+        types, seqs = {}, []
+        for ft, sq in rows:
+            types[ft] = types.get(ft, 0) + 1
+            if sq not in seqs:
+                seqs.append(sq)
+        return types, seqs, len(rows)
+
+    def listing(name):
+        t_ = scen.call_method(ctx, it, me, "interface.FeatureDB." + name)
+        if t_.result[0] != "return":
+            return ("raise", t_.result[1])
         try:
-            traces = it.run(f, {p: ft}, self_obj=Opaque("self", "obj"))
-        except Unsupported as e:
-            ctx.require(False, "count_features_of_type outside the analysable subset: %s" % e)
-        exs = {(" ".join(str(e[1].render() if hasattr(e[1], "render") else e[1]).split()), tuple(getattr(x, "name", x) for x in (e[2] or ()))) for t in traces for e in t.executes()}
-        ctx.ob("R3", len(exs) == 1, "count_features_of_type runs one statement (%s)" % label, func=f, sig="count (%s): %d distinct statement(s)" % (label, len(exs)), nontrivial=False)
-        for text, params in sorted(exs):
+            return list(t_.result[1])
+        except TypeError:
+            return ("not iterable", repr(t_.result[1])[:60])
+
+    def check(stage):
+        types, seqs, total = model()
+        bad = None
+        for ft in list(types) + ["absent"]:
+            t_ = scen.call_method(ctx, it, me, "interface.FeatureDB.count_features_of_type", featuretype=ft)
+            if t_.result != ("return", types.get(ft, 0)):
+                bad = "count_features_of_type(%r) = %s, the table has %d" % (ft, t_.result[1:], types.get(ft, 0))
+        t_ = scen.call_method(ctx, it, me, "interface.FeatureDB.count_features_of_type")
+        if t_.result != ("return", total):
+            bad = "count_features_of_type() = %s, the table has %d rows" % (t_.result[1:], total)
+        ctx.ob("R3", bad is None, "count_features_of_type counts exactly the stored rows of the type (all rows without a type) -- %s" % stage, func=f,
+               sig="counts equal the table (%s)" % stage if bad is None else "%s: %s" % (stage, bad))
+        for name, want in (("featuretypes", sorted(types)), ("seqids", sorted(seqs))):
+            g = require_func(ctx, "interface.FeatureDB." + name)
+            got = listing(name)
+            ok = isinstance(got, list) and sorted(got) == want and len(got) == len(set(got))
+            ctx.ob("R3", ok, "%s() lists every distinct stored value exactly once -- %s" % (name, stage), func=g,
+                   sig="%s() complete and duplicate-free (%s)" % (name, stage) if ok else "%s, %s() = %s, the table has %s" % (stage, name, got, want))
+    # an iteration abandoned after its first item (the very first use of the listing) leaves no trace
+    for name in ("featuretypes", "seqids"):
+        t_ = scen.call_method(ctx, it, me, "interface.FeatureDB." + name)
+        if t_.result[0] == "return":
             try:
-                st = S.parse(text)
-            except S.SQLError as e:
-                ctx.ob("R3", False, "the count statement parses", func=f, sig="count statement: %s" % e)
-                continue
-            ok = st.verb == "SELECT" and st.tables() == ["features"] and len(st.cols) == 1 and st.cols[0][0][0] == "call" and st.cols[0][0][1] == "count" \
-                and (not st.cols[0][0][2] or st.cols[0][0][2][0][0] == "star")
-            ctx.ob("R3", ok, "count_features_of_type counts rows of `features` (count() / count(*))", func=f, sig="count statement ok" if ok else "count statement: %s" % text)
-            if ft is None:
-                ctx.ob("R3", st.where is None and not params, "without a featuretype every row is counted", func=f, sig="unfiltered count" if st.where is None else "count filter: %s" % S.show(st.where),
-                       nontrivial=False)
-            else:
-                n_filtered += 1
-                conj = S.conjuncts(st.where) if st.where is not None else []
-                ok = len(conj) == 1 and conj[0][0] == "cmp" and conj[0][1] in ("=", "==") and {conj[0][2][0], conj[0][3][0]} == {"col", "param"} and \
-                    (conj[0][2] if conj[0][2][0] == "col" else conj[0][3])[2].lower() == "featuretype"
-                ctx.ob("R3", ok, "the filtered count compares `featuretype` with the argument, like features_of_type", func=f,
-                       sig="count filter featuretype = ?" if ok else "count filter: %s" % (S.show(st.where) if st.where is not None else None))
-                ctx.ob("R3", params == ("ft",), "the filtered count binds the featuretype argument", func=f, sig="count binds (featuretype,)" if params == ("ft",) else "count binds %s" % (params,))
-    ctx.ob("R3", n_filtered >= 1, "count_features_of_type has a featuretype-filtered statement", func=f, sig="filtered count present" if n_filtered else "no filtered count statement")
-    for name, col in (("featuretypes", "featuretype"), ("seqids", "seqid")):
-        g = require_func(ctx, "interface.FeatureDB." + name)
-        try:
-            traces = it.run(g, {}, self_obj=Opaque("self", "obj"))
-        except Unsupported as e:
-            ctx.require(False, "%s outside the analysable subset: %s" % (name, e))
-        exs = {" ".join(str(e[1].render() if hasattr(e[1], "render") else e[1]).split()) for t in traces for e in t.executes()}
-        ctx.floor("R3", len(exs), 1, "statements in %s" % name)
-        for text in sorted(exs):
-            try:
-                st = S.parse(text)
-            except S.SQLError as e:
-                ctx.ob("R3", False, "%s statement parses" % name, func=g, sig="%s: %s" % (name, e))
-                continue
-            ok = st.verb == "SELECT" and st.distinct and st.tables() == ["features"] and len(st.cols) == 1 and st.cols[0][0][0] == "col" and st.cols[0][0][2].lower() == col \
-                and st.where is None
-            ctx.ob("R3", ok, "%s() selects DISTINCT %s from features, unfiltered" % (name, col), func=g, sig="%s distinct %s" % (name, col) if ok else "%s: %s" % (name, text))
+                next(iter(t_.result[1]))
+            except (StopIteration, TypeError):
+                pass
+    check("after an abandoned first iteration")
+    check("second listing")
+    t_ = scen.call_method(ctx, it, me, "interface.FeatureDB.update", data=[scen.feature("N1", "tRNA", 5, 9, {"ID": ["n1"]}, seqid="chr9")], make_backup=False)
+    check("after an update adding a new type on a new seqid")
+    t_ = scen.call_method(ctx, it, me, "interface.FeatureDB.delete", features=["z2", "n1"], make_backup=False)
+    check("after deleting the only features of a type and of two seqids")
